@@ -247,7 +247,7 @@ fam(Family("quasi", {
     "n": ["1", "sym", "(unquote $q)", "($n $n)", "(unquote (unquote a))", "[$n]"],
     "z": ["a", "nil", "(quasiquote $q)"],
     "d": ["1", "sym", "(a b)", "[a (t 1)]", "@[x]", "{:k v}", "()", "(quote a)", "(unquote a)", "(splice x)", "($d $d)", "[$d]"],
-}, quick=5, thorough=6, extra=6, ctx_thorough=ALL_CTX))
+}, quick=4, thorough=5, extra=6, ctx_thorough=ALL_CTX))
 
 
 # ---- macros: the core control macros
